@@ -1,7 +1,7 @@
 """C09 — vector instructions follow the README rules for lengths, offsets and indices."""
 import itertools, random
 import vcheck
-from vcheck import Stream, sx_parse
+from vcheck import Stream, sx_parse, sx_str
 from gen.stategen import *
 from gen.pools import fbits, I32, F32, rand_i32, rand_f32
 from gen import stepgen
@@ -155,6 +155,11 @@ def streams(seed, tier):
             cases.append(one(prof, nm, ivec=[[1]], _bare=True))
         fvs = [[], [NAN], [NAN, fbits(1.0)], [fbits(1.0), NAN], [fbits(2.0), NAN, fbits(1.0), NAN, NINF], [0, NZERO], [NZERO, 0, NZERO], [PINF, NINF],
                [fbits(34.2), 0, fbits(-28.1), fbits(111.1), fbits(-1.5)], [fbits(1.0), fbits(1.0), fbits(0.5)], [0x7f7fffff, 0x7f7fffff], [fbits(1e20), fbits(-1e20), fbits(1.0)]]
+        # long vectors of general floats: the left-to-right f32 sum is not what a re-associated (chunked, pairwise, SIMD) sum gives
+        fvs = fvs + [[fbits(1e8)] + [fbits(1.0)] * 15 + [fbits(-1e8)] + [fbits(1.0)] * 15, [fbits(0.1 * i) for i in range(40)],
+                     [fbits(1e-3 * (i * i % 17) + 1e4 * (i % 3)) for i in range(33)], [fbits(16777216.0)] + [fbits(1.0)] * 17]
+        fvs = fvs + [[rand_f32(rng) for _ in range(n_)] for n_ in (16, 17, 18, 31, 32, 33, 64, 100) for _ in range(2)]
+        fvs = fvs + [[fbits(rng.uniform(-1000, 1000)) for _ in range(n_)] for n_ in (16, 17, 18, 32, 33, 100, 257) for _ in range(2)]
         for v in fvs:
             for nm in ("FLOATVECTOR.SUM", "FLOATVECTOR.MEAN", "FLOATVECTOR.LENGTH", "FLOATVECTOR.SORT*ASC", "FLOATVECTOR.SORT*DESC"):
                 cases.append(one(prof, nm, fvec=[v]))
@@ -227,6 +232,22 @@ def streams(seed, tier):
                     st[k] = st[k][:1]
             st["exec"] = [I(nm)]
             cases.append(case_run((mask + len(nm)) % 2, state(**st), 0, 1))
+    # the same call twice with one instruction set: what the dispatch closure of an instruction may remember must not matter
+    twice = []
+    nong = [x for x in allnames if x not in stepgen.UNSAFE and x not in stepgen.RANDOM and not x.startswith("GRAPH.")]
+    nsafe = [x for x in nong if x not in stepgen.ALLOCATING]
+    for nm in vec:
+        for j in range({"quick": 4, "thorough": 40, "search": 10}[tier] * (4 if nm == "FLOATVECTOR.SINE" else 1)):
+            st0 = sx_parse(stepgen.step_case(rng, nm, nong, nsafe, profile=j % 2))[2]
+            c = list(DEFAULT_CFG); c[4] = 30; st0[14] = c
+            twice.append(sx_str([j % 2, [], st0, 1, 0, [1, []], [3, 0, 0], []]))
+    for n_ in (-1, -7, 0, 1, 3):         # SINE with a length that pushes nothing / little, other vectors lying on the stack
+        for prof in (0, 1):
+            c = list(DEFAULT_CFG); c[4] = 30
+            st0 = state(exec=[I("FLOATVECTOR.SINE")], int=[n_, 5], float=[fbits(0.5), fbits(0.25), fbits(2.0), fbits(9.0)], fvec=[[fbits(9.0), fbits(8.0)]], cfg=c)
+            twice.append(sx_str([prof, [], st0, 1, 0, [1, []], [3, 0, 0], []]))
+    out.append(Stream("same-call-again", "thr.repeat", "thr.repeat.check", twice,
+                      "every vector instruction: a random state whose program starts with it, run three times in a row with ONE InstructionSet (loaded once): one result"))
     out.append(Stream("by-name-random", "run", "run.check", cases,
                       "%d vector instruction names x %d random whole states each (vectors of equal / unequal / zero length, offsets and indices near the lengths and extreme, NaN elements, missing operands), both profiles" % (len(vec), n)))
     return out
